@@ -78,8 +78,18 @@ func (r *Report) Disagreement(d Disagreement) {
 			r.KnownSeen[d.Known] = string(b)
 		}
 		r.Distribution["known:"+d.Known]++
-	} else if len(r.Disagree) < 50 {
-		r.Disagree = append(r.Disagree, d)
+	} else {
+		// separate budgets, so that a flood of model-vs-implementation differences can never crowd out a
+		// failure of the property itself (and the other way round)
+		n := 0
+		for _, x := range r.Disagree {
+			if x.Kind == d.Kind {
+				n++
+			}
+		}
+		if n < 25 {
+			r.Disagree = append(r.Disagree, d)
+		}
 	}
 	r.mu.Unlock()
 }
